@@ -12,8 +12,15 @@ from concurrent.futures import ThreadPoolExecutor
 
 from . import VERIF_ROOT, REPO
 
-EVIDENCE_DIR = os.path.join(VERIF_ROOT, "evidence")
-REPLAY_DIR = os.path.join(VERIF_ROOT, "out", "replay")
+# runs against a scratch copy of the repository (mutants, seeded changes)
+# must not overwrite the committed evidence
+_SCRATCH = REPO != "/repo"
+EVIDENCE_DIR = os.environ.get("VERIF_EVIDENCE_DIR") or os.path.join(
+    VERIF_ROOT, "out", "scratch-evidence" if _SCRATCH else "..",
+    "" if _SCRATCH else "evidence")
+EVIDENCE_DIR = os.path.normpath(EVIDENCE_DIR)
+REPLAY_DIR = os.path.join(VERIF_ROOT, "out",
+                          "scratch-replay" if _SCRATCH else "replay")
 KNOWN_FILE = os.path.join(VERIF_ROOT, "known_findings.json")
 PYTHON = "/venv/bin/python"
 MAX_WORKERS = 16
